@@ -341,7 +341,10 @@ def _execute(c, s, n_jobs, seen):
             ok4, second = U.sut(c, meth + "(buffer refilled)", getattr(model, meth), buf)
             if ok3 and ok4:
                 second = numpy.asarray(second)
-                same3 = second.shape == res.shape and (bool(numpy.all(second == res[perm])) if (meth == "predict" and s.kind == "clf") else U.arrays_equal(second, res[perm]))
+                # the rows reach their bucket models in another order: BLAS may
+                # round differently (same latitude as batch vs single row)
+                rt, at = (1e-4, 1e-5) if Xq.dtype == numpy.float32 else (1e-9, 1e-12)
+                same3 = second.shape == res.shape and (bool(numpy.all(second == res[perm])) if (meth == "predict" and s.kind == "clf") else U.arrays_equal(second, res[perm], rt, at))
                 if not same3:
                     _viol(c, s, "routing", ("output", meth, "buffer-reuse"), "%s on an array object that was predicted before and refilled in place does not return the outputs of its current rows" % meth, seen)
             c.probe("buffer_reused")
